@@ -470,7 +470,7 @@ def vcRepeat : M Unit := do
 
 /-- does the command get recorded for `.`? -/
 def isRepeatable (c : Int) (k : Int) : Bool :=
-  strHas "!<>ACDIJOPRSXYacdioprsxy~" c || (c == 103 && (k == 117 || k == 85 || k == 126))
+  strHas "!<>ACDIJOPRSXYacdioprsxy~" c || (c == 103 && (k == 117 || k == 85 || k == 126 || k == 0))   -- strchr("uU~", 0) finds the terminator
 
 /-- the start of an iteration of `vi()`: register and count prefixes and the motion, if any -/
 def viPre : M (Int × Int × Int) := do
